@@ -83,17 +83,18 @@ theorem writes_segmentation_independent (a b : List (List UInt8)) (h : a.flatten
   simp [ca, cb, wa, wb, na, nb, h]
 
 /-- no slice of `lineAndColumn` / `offendingLine` / `describeSyntaxError` is out of range -/
-theorem position_in_range (c : Win) (err : DecodeErr) (pos : Pos) (h : c.Inv)
-    (hp : position c err = some pos) :
+theorem position_in_range (c : Win) (err : DecodeErr) (pos : Pos) (h : c.Inv) (skipped : Nat)
+    (hsk : skipped ≤ c.consumedBytes) (hp : position c err skipped = some pos) :
     pos.markerPos ≤ c.window.length ∧ 1 ≤ pos.line ∧ 1 ≤ pos.col := by
   obtain ⟨_, h2⟩ := h
   unfold position at hp
-  cases ho : errorOffset c.consumedBytes err with
+  cases ho : errorOffset (c.consumedBytes - skipped) err with
   | none => simp [ho] at hp
-  | some absOffset =>
-    simp only [ho] at hp
-    have hle : absOffset ≤ (c.consumedBytes : Int) := by
+  | some off =>
+    simp only [ho, Option.map_some] at hp
+    have hle : off + (skipped : Int) ≤ (c.consumedBytes : Int) := by
       cases err <;> simp [errorOffset] at ho <;> omega
+    generalize off + (skipped : Int) = absOffset at hp hle
     split at hp
     · simp at hp
     · rename_i hge
